@@ -706,7 +706,7 @@ def check_flush_resets(ctx, R, classes):
 # ----------------------------------------------------------------------------- C10 paired buffers
 PAIR_EXCEPTIONS = {
     ('sliding_window', '_buffer', 'metadata_buffer'): 'the element deque drops by maxlen; its twin is popped explicitly when full',
-    ('latest', 'next', 'next_metadata'): 'the element slot is consumed on delivery, the metadata slot is kept until replaced '
+    ('latest', '*', '*'): 'the (only) element slot is consumed on delivery, its metadata slot is kept until replaced '
                                          '(hold-until-replaced protocol; see known finding EMITTED-STILL-HELD)',
 }
 
@@ -764,7 +764,7 @@ def check_paired_buffer(ctx, R, classes):
         if cls.module.name != 'streamz.core':
             continue
         for d, m in buffer_pairs(ctx, cls):
-            exc = (cls.name, d, m) in PAIR_EXCEPTIONS
+            exc = (cls.name, d, m) in PAIR_EXCEPTIONS or ((cls.name, '*', '*') in PAIR_EXCEPTIONS and len(buffer_pairs(ctx, cls)) == 1)
             for mname, fn in ctx.entry_methods(cls):
                 if mname == '__init__':
                     continue
